@@ -4050,7 +4050,7 @@ func BuildPDUSessionResourceReleaseCommand(
 
 	if pagingPriority != nil {
 		ie = ngapType.PDUSessionResourceReleaseCommandIEs{}
-		ie.Id.Value = ngapType.ProtocolIEIDPagingPriority
+		ie.Id.Value = ngapType.ProtocolIEIDRANPagingPriority
 		ie.Criticality.Value = ngapType.CriticalityPresentIgnore
 		ie.Value.Present = ngapType.PDUSessionResourceReleaseCommandIEsPresentRANPagingPriority
 		ie.Value.RANPagingPriority = pagingPriority
